@@ -1079,7 +1079,9 @@ impl<'env> Executor<'env> {
             }
             let instructions = block_stack.instructions();
             let auto_escape = state.auto_escape;
-            let nested = state.current_block.is_some();
+            // macros reset the current block, so a block called from within a
+            // macro is recognized by the depth the macro's context inherited.
+            let nested = state.current_block.is_some() || state.ctx.depth() > 1;
             state.with_execution_state(
                 instructions,
                 auto_escape,
